@@ -551,7 +551,7 @@ def scenario(rng, ck, n_policies=None, tags=('<', '>'), max_segs=2, illtyped=0.0
             v = value(rng, 1)
         if target is not None and rng.random() < 0.05:
             # the raw text of one of the policy's own string elements (delimiters included) offered as the value
-            raw = [e[1] for e in pols[target][f] if e[0] == 's']
+            raw = [e[1] for e in pols[target][f] if e[0] == 's' and len(e[1]) <= 14]
             if raw:
                 v = rng.choice(raw)
         if rng.random() < (illtyped / 4 if easy else illtyped):
